@@ -65,6 +65,7 @@ type heapVer struct {
 type Event struct {
 	Kind   string // call go defer
 	Callee string // normalized name
+	Alias  string // interface method name when the call was an invoke resolved to a concrete method
 	Args   []Val
 	Rets   []Val
 	Seq    int
